@@ -149,6 +149,26 @@ func (s *h) Observe() *seqmc.Fail {
 			return seqmc.Failf("Contains", "ContainsForward(%d)=%v ContainsReverse(%d)=%v, model %v", k, o.CF[i], k, o.CR[i], want)
 		}
 	}
+	// observers called from inside the Range callback (read-only re-entrancy)
+	{
+		var outer []pair
+		bad := ""
+		s.b.Range(func(k, v int) bool {
+			outer = append(outer, pair{k, v})
+			in := 0
+			s.b.Range(func(int, int) bool { in++; return true })
+			gv, ok := s.b.GetForward(k)
+			gk, ok2 := s.b.GetReverse(v)
+			if bad == "" && (in != len(want) || s.b.Len() != len(want) || !ok || !ok2 || gv != v || gk != k) {
+				bad = fmt.Sprintf("inside the callback for (%d,%d): nested Range visits %d, Len %d, GetForward (%d,%v), GetReverse (%d,%v)", k, v, in, s.b.Len(), gv, ok, gk, ok2)
+			}
+			return true
+		})
+		sort.Slice(outer, func(i, j int) bool { return outer[i].k < outer[j].k })
+		if bad != "" || fmt.Sprint(outer) != fmt.Sprint(want) {
+			return seqmc.Failf("Range:nested-observers", "Range whose callback calls other observers visits %v (%s), model %v", outer, bad, want)
+		}
+	}
 	// Range whose callback, at its first call, removes ANOTHER pair (RemoveForward, RemoveReverse, Clear):
 	// every visit must still be a pair the map really held during the call (key AND value), no key twice,
 	// and every pair that was not removed must be visited. (On a clone: Observe leaves s.b intact.)
